@@ -188,6 +188,18 @@ theorem index_stale_after_clean :
     r.2 = .ok 2 ∧ (r.1.rules[2]?.map (·.kind)) = some .style ∧ (r.1.rules[1]?.map (·.pre)) = some [0x7A] := by
   decide
 
+/-- **returned index** FULL STATEMENT: "an accepted insertRule/add returns the index at which the new rule stands" —
+refuted by `index_stale_after_clean` above.
+PROVED: whenever `insertRule` (any index, ordered or not, object or text) returns an index and the list became exactly
+one longer — i.e. unless the namespace clean-up removed a rule, or the @charset rule was merged — the rule at the
+returned index is the new object: of the kind handed in, created by this call, naming the sheet. -/
+theorem insert_index_partial (st : St) (s : Spec) (index : Option Int) (inOrder viaStr : Bool) (n : Nat)
+    (hok : (insertRule st s index inOrder viaStr (!viaStr)).2 = .ok n)
+    (hlen : (insertRule st s index inOrder viaStr (!viaStr)).1.rules.length = st.rules.length + 1) :
+    ∃ x, (insertRule st s index inOrder viaStr (!viaStr)).1.rules[n]? = some x ∧
+      x.kind = s.kind ∧ x.pss = true ∧ x.id = st.next :=
+  insertRule_index st s index inOrder viaStr _ n hok hlen
+
 /-- C09-parentstylesheet-depth2: in a VALID state the getter answers the sheet down to depth 1 … -/
 theorem parentStyleSheet_depth1 (st : St) (h : Valid st) :
     (∀ r ∈ st.rules, derivedPss none r = true) ∧
